@@ -3,7 +3,7 @@ import random, json
 import core, sx, shapes
 from props import dcommon, dgeneric
 
-LEVEL = 'exploration'
+LEVEL = 'proof'
 FEATURES = ('debug_diffs',)
 PROP = 'C13'
 
